@@ -232,3 +232,19 @@ Theorem C09_local_optimal0_is_source : forall fuel m a b, covers m a b -> gap_op
     /\ forall i j al' s', score m (skipn i a) (skipn j b) al' = Ok s' -> s' <= ls.
 Proof. exact ImpProofsV.local_optimal0_src. Qed.
 Print Assumptions C09_local_optimal0_is_source.
+
+(* ---- the Levenshtein table, as the source's init function builds it ---------------------------------------
+   align/levenshtein.go's init (two nested loops over all bytes storing into the map), translated on
+   this run, builds a map that holds every pair of bytes, 0 on the diagonal and -1 elsewhere — the
+   same answers as the table read out of the package (C09_lev_rule). *)
+From Bio.Proofs Require ImpProofsX.
+Theorem C09_levenshtein_is_source :
+  exists m, ImpGen.imp_align_init_levenshtein_0 = GoSem.Ret m /\
+    forall a b, (a < 256)%N -> (b < 256)%N ->
+      GoSem.assoc2 m a b = Some (if (a =? b)%N then 0 else -1)
+      /\ lev_get a b = Ok (if (a =? b)%N then 0 else -1).
+Proof.
+  destruct ImpProofsX.imp_init_levenshtein as (m & E & H). exists m. split; [exact E|].
+  intros a b Ha Hb. split; [apply H; assumption | apply lev_rule_all; assumption].
+Qed.
+Print Assumptions C09_levenshtein_is_source.
